@@ -753,3 +753,6 @@ mutant("C06-M39", "C06", "R06c", "transfer scale factor divides by the all-popul
 mutant("C01-M28", "C01", "R01n", "junction class chosen for non-junctions", M, "Population.build", 'elif comps.at[comp_name, "is junction"] == "y":', 'elif comps.at[comp_name, "is junction"] != "y":')
 mutant("C04-M31", "C04", "R04g", "residual junctions built as plain junctions", M, "Population.build", "                if comp_name in residual_junctions:", "                if comp_name in residual_junctions and False:")
 mutant("C05-M31", "C05", "R05l", "sources take precedence over duration groups", M, "Population.build", '                elif comps.at[comp_name, "duration group"]:\n                    self.comps.append(TimedCompartment(pop=self, name=comp_name, parameter=self.par_lookup[comps.at[comp_name, "duration group"]]))\n                elif comps.at[comp_name, "is source"] == "y":\n                    self.comps.append(SourceCompartment(pop=self, name=comp_name))', '                elif comps.at[comp_name, "is source"] == "y":\n                    self.comps.append(SourceCompartment(pop=self, name=comp_name))\n                elif comps.at[comp_name, "duration group"]:\n                    self.comps.append(TimedCompartment(pop=self, name=comp_name, parameter=self.par_lookup[comps.at[comp_name, "duration group"]]))')
+mutant("C06-M40", "C06", "R06k", "interaction rows built from the 'to' population type", M, "Model.build", 'from_pops = [x.name for x in self.pops if x.type == self.framework.interactions.at[name, "from population type"]]', 'from_pops = [x.name for x in self.pops if x.type == self.framework.interactions.at[name, "to population type"]]')
+mutant("C06-M41", "C06", "R06k", "interaction value stored transposed", M, "Model.build", "self.interactions[name][from_pops.index(from_pop), to_pops.index(to_pop), :]", "self.interactions[name][to_pops.index(to_pop), from_pops.index(from_pop), :]")
+mutant("C01-M29", "C01", "R06k", "transfers also drain junctions", M, "Model.build", "if not (isinstance(src, SourceCompartment) or isinstance(src, SinkCompartment) or isinstance(src, JunctionCompartment)):", "if not (isinstance(src, SourceCompartment) or isinstance(src, SinkCompartment)):")
